@@ -53,10 +53,15 @@ PLAN["C05"]["thorough"] = PLAN["C05"]["thorough"] + [{"binary": "miri:worldsim",
 SCHED_BINS = [f"schedsim-{i:02d}" for i in range(16)]
 
 
+# Thorough tier only: 32 more (random) schedules.
+SCHED_BINS_THOROUGH = [f"schedsim-{i:02d}" for i in range(16, 32)]
+
+
 def e2(profile, quick_per_bin, thorough_per_bin):
-    def jobs(n):
-        return [{"binary": b, "package": b, "profile": profile, "runs": n, "chunks_per_job": 1} for b in SCHED_BINS]
-    return {"quick": jobs(quick_per_bin), "thorough": jobs(thorough_per_bin), "timeout_s": {"quick": 900, "thorough": 3000}}
+    def jobs(n, bins):
+        return [{"binary": b, "package": b, "profile": profile, "runs": n, "chunks_per_job": 1} for b in bins]
+    return {"quick": jobs(quick_per_bin, SCHED_BINS), "thorough": jobs(thorough_per_bin, SCHED_BINS + SCHED_BINS_THOROUGH),
+            "timeout_s": {"quick": 900, "thorough": 3000}}
 
 
 PLAN["C07"] = e2("C07", 10000, 200000)
